@@ -1088,7 +1088,11 @@ class QuantityMeta(ClassWithDefinitionMeta):
         unit._qty_cls = cls
         if isinstance(define_as, Term):
             unit._definition = define_as
-            unit._equiv = define_as.normalized().num_elem or ONE
+            equiv = define_as.normalized().num_elem or ONE
+            if isinstance(equiv, Integral):
+                # the quotient of two ints would be a float
+                equiv = Decimal(equiv)
+            unit._equiv = equiv
         else:
             assert define_as is None, "Unknown type of Unit definition."
             unit._definition = None
